@@ -440,6 +440,10 @@ func (f *FnEnc) guardedAccess(fr *Frame, st *State, R string, addr ssa.Value, wr
 			}
 		}
 	}
+	// an object allocated by this function is initialised without its lock
+	// (constructor pattern); the waiver is by allocation, so it also covers
+	// accesses after the function has published the object (stated in DESIGN)
+	cond = or(cond, "(>= "+base.L[0]+" "+f.st0.alloc+")")
 	kind := "read"
 	if write {
 		kind = "write"
